@@ -89,6 +89,12 @@ type Sim struct {
 	// task, for the engine to log from the scheduler goroutine (-1: none)
 	NotifySite  int
 	NotifySite2 int
+	// automatic sites (see autoPark)
+	AutoPM     int
+	AutoSeed   uint64
+	AutoVisits int
+	AutoParks  int
+	autoVisits [maxAutoSites]uint16
 	Notifies   int32
 	// schedRaceOff: the scheduler goroutine has synchronisation events disabled
 	schedRaceOff bool
@@ -251,6 +257,13 @@ func Yield(site int, key uint64) {
 	if t == nil {
 		return
 	}
+	if site == SiteAuto {
+		// mechanically inserted site (cmd/autoyield): never while a lock is held,
+		// and only at the sites and visits this run has enabled
+		if t.Held > 0 || atomic.LoadInt32(&NoUnlockYield) != 0 || !s.autoPark(key) {
+			return
+		}
+	}
 	if s.YieldFilter != nil && !s.YieldFilter(site, key) {
 		t.SkipUnlockYield = true
 		return
@@ -270,7 +283,42 @@ func Yield(site int, key uint64) {
 // Site numbers of the mutex seam.
 const SiteAfterUnlock = 250
 
-// NoUnlockYield suppresses the preemption point after unlocks (set by the
+// SiteAuto is the site number of the preemption points inserted mechanically
+// by cmd/autoyield; the key argument identifies the individual site.
+const SiteAuto = 400
+
+const maxAutoSites = 4096
+
+// autoPark decides whether the calling task parks at automatic site n. The
+// decision is a pure function of the run's AutoSeed, the site and how often
+// the site has been visited in this run: a per-run random subset of the sites
+// is enabled (AutoPM per mille), and an enabled site parks on its first
+// AutoVisits visits only (a loop over 256 atomic cells must not drown the
+// schedule).
+//
+//go:norace
+func (s *Sim) autoPark(n uint64) bool {
+	if s.AutoPM <= 0 || n >= maxAutoSites {
+		return false
+	}
+	x := (n + 1) * 0x9e3779b97f4a7c15
+	x ^= s.AutoSeed
+	x ^= x >> 31
+	x *= 0xbf58476d1ce4e5b9
+	x ^= x >> 29
+	if int(x%1000) >= s.AutoPM {
+		return false
+	}
+	if int(s.autoVisits[n]) >= s.AutoVisits {
+		return false
+	}
+	s.autoVisits[n]++
+	s.AutoParks++
+	return true
+}
+
+// NoUnlockYield suppresses the preemption point after unlocks and the
+// mechanically inserted ones (set by the
 // harness around its own white-box reads in task context).
 var NoUnlockYield int32
 
